@@ -4,6 +4,7 @@ import MpVerif.C03.LemmasGen
 import MpVerif.C03.LemmasIntended
 import MpVerif.C03.LemmasIntText
 import MpVerif.C03.LemmasCongr
+import MpVerif.C03.LemmasBF
 /-!
 # C03 — NL writer output is read back as the same model (text = binary)
 
@@ -71,6 +72,19 @@ theorem C03_header_roundtrip (cd : Codec) (o : Opts) (h : Hdr) (rest : List Tok)
 theorem C03_roundtrip (cd : Codec) (m : Model) (o : Opts) (hwf : wellFormed m o = true) :
     readTokens cd (writeNL m o) = .ok (events cd m o) :=
   roundtrip cd m o hwf
+
+/-- **Round trip with the reader flag `READ_BOUNDS_FIRST`** (the two passes of `NLReader::Read()`: a first pass that forwards only
+    `OnVarBounds` and stops after the `b` segment, a second pass that jumps over it): for every well-formed model and every
+    writer option the handler is told the header, then the variable bounds, then everything else in file order. -/
+theorem C03_roundtrip_bounds_first (cd : Codec) (m : Model) (o : Opts) (hwf : wellFormed m o = true) :
+    readTokensBF cd (writeNL m o) = .ok (eventsBF cd m o) :=
+  roundtrip_bounds_first cd m o hwf
+
+/-- with and without the flag the handler is told the same things; only the position of the variable bounds differs -/
+theorem C03_bounds_first_same_notifications (cd : Codec) (m : Model) (o : Opts) :
+    events cd m o = Ev.header (readBackHdr cd (effHdr m) o) :: (evPre cd m o ++ (evVarBnds cd 0 m.vb ++ (evPost cd m o ++ [Ev.endInput]))) ∧
+    eventsBF cd m o = Ev.header (readBackHdr cd (effHdr m) o) :: (evVarBnds cd 0 m.vb ++ (evPre cd m o ++ (evPost cd m o ++ [Ev.endInput]))) := by
+  exact ⟨by rw [events, eventsBF_perm], rfl⟩
 
 /-! ## `events` is what the property demands: `intended` (ModelIntended.lean), written from the property text -/
 
@@ -353,6 +367,27 @@ theorem C03_gen_readBounds : readBounds =
     [("RANGE", "read", "read"), ("UPPER", "neg-inf", "read"), ("LOWER", "read", "pos-inf"), ("FREE", "neg-inf", "pos-inf"),
      ("CONSTANT", "read", "same-as-lb"), ("COMPL", "compl", "compl")] ∧ inftyIsDblMax = true := by decide
 
+open MpVerif.Gen.C03Writer in
+/-- **the reader's bound switch, semantically tied**: the model's `readBndItems` (the transcription of `NLReader::ReadBounds`) equals,
+    for all inputs, the table-driven reader `readBndItemsG` run with the table the translator extracts from nl-reader.h
+    (`enum BoundType` order = digit; per case where `lb`/`ub` come from, in which order; the complementarity case) -/
+theorem C03_gen_readBounds_sem (cd : Codec) (h : Hdr) (isCon : Bool) (n i : Nat) (ts : List Tok) :
+    readBndItems cd h isCon i n ts = readBndItemsG cd h isCon readBoundsTable i n ts :=
+  gen_readBounds cd h isCon n i ts
+
+open MpVerif.Gen.C03Writer in
+/-- **bounds, both sides generated**: the reader's switch as extracted from nl-reader.h, run on the tokens the writer's decision
+    tree as extracted from nl-writer2.hpp produces for one bound `(L, U, k, cvar)`, reports `evBnd` and continues — for all
+    doubles, both item kinds, complementarity included -/
+theorem C03_gen_bounds_roundtrip (cd : Codec) (h : Hdr) (isCon : Bool) (i n : Nat) (L U : Dbl) (k cvar : Nat) (rest : List Tok)
+    (hk : k = 0 ∨ (isCon = true ∧ k ≤ 3 ∧ cvar < h.nv)) :
+    readBndItemsG cd h isCon readBoundsTable i (n + 1) (bndTree.eval L U k cvar ++ rest) =
+      (match readBndItemsG cd h isCon readBoundsTable (i + 1) n rest with
+       | .error e => .error e
+       | .ok (l, ts) => .ok (evBnd cd isCon i L U k cvar :: l, ts)) := by
+  rw [gen_bounds, ← gen_readBounds, ← gen_readBounds]
+  exact readBnd_one cd isCon i n L U k cvar rest hk
+
 /-! ## non-vacuity: the contract is satisfiable and the theorem computes -/
 
 def exModel : Model :=
@@ -377,6 +412,8 @@ example : wfE ⟨4, 1⟩ .log (.op2 62 "atleast" (.num ⟨false, 1023, 0⟩) (.o
 example : wfE ⟨4, 1⟩ .sym (.str "only a string") = true ∧ wfE ⟨4, 1⟩ .num (.str "s") = false ∧ wfE ⟨4, 1⟩ .log (.var 0 "") = false := by decide
 example : wfE ⟨4, 1⟩ .num (.opN 64 "pl" [.num ⟨false, 1023, 0⟩, .num Dbl.zero, .num ⟨false, 1024, 0⟩, .var 0 "x"]) = true ∧
           wfE ⟨4, 1⟩ .num (.opN 64 "pl" [.num ⟨false, 1023, 0⟩, .var 0 "x"]) = false := by decide
+-- C03_gen_bounds_roundtrip: both alternatives of the hypothesis occur (ordinary bound; complementarity on a constraint)
+example : ((0 : Nat) = 0 ∨ (false = true ∧ 0 ≤ 3 ∧ 0 < 2)) ∧ ((2 : Nat) = 0 ∨ (true = true ∧ 2 ≤ 3 ∧ 1 < 2)) := by decide
 -- C03_header_roundtrip / C03_gen_header_roundtrip: headers with and without logical constraints, complementarity, vbtol
 example : hdrOk exModel.hdr = true := by decide
 example : hdrOk { nv := 3, nac := 2, nlc := 0, ncc := 2, nnlcc := 1, ncdi := 1, nopts := 2, opts := [0, 3, 0, 0, 0, 0, 0, 0, 0], flags := 0, arith := 0 } = true := by decide
